@@ -224,6 +224,7 @@ pub struct Real {
     /// (some lines only become concrete — e.g. carry key bytes — once executed)
     pub model_line: Option<String>,
     pub nm: Names,
+    pub ds: crate::ds::Ds,
 }
 
 /// the byte stream `sign` feeds KMAC, recomputed independently from the serialised key
@@ -308,7 +309,7 @@ pub fn clone_msk(m: &MasterSecretKey) -> MasterSecretKey {
 
 impl Real {
     pub fn new() -> Self {
-        Self { cc: Covercrypt::default(), msks: vec![], mpks: vec![], usks: vec![], encs: vec![], pkes: vec![], hdrs: vec![], dead: Default::default(), model_line: None, nm: Names::default() }
+        Self { cc: Covercrypt::default(), msks: vec![], mpks: vec![], usks: vec![], encs: vec![], pkes: vec![], hdrs: vec![], dead: Default::default(), model_line: None, nm: Names::default(), ds: crate::ds::Ds::new() }
     }
 
     fn reset(&mut self) {
@@ -320,6 +321,7 @@ impl Real {
         self.hdrs.clear();
         self.dead.clear();
         self.nm = Names::default();
+        self.ds = crate::ds::Ds::new();
     }
 
     fn decaps_str(&self, u: &UserSecretKey, e: &(XEnc, Secret<32>)) -> String {
@@ -363,6 +365,9 @@ impl Real {
 
     fn step_inner(&mut self, line: &str) -> String {
         let t: Vec<&str> = line.trim().split(' ').collect();
+        if let Some(out) = self.ds.step(t.as_slice()) {
+            return out;
+        }
         match t.as_slice() {
             ["reset"] => {
                 self.reset();
